@@ -79,13 +79,15 @@ func genMS(t *rapid.T) MSScript {
 		v, _ := sig.Decode(s.Signal, b)
 		total += sig.Count(v)
 		totalBytes += len(b)
-		for _, sz := range sig.StandaloneSizes(v) {
-			if sz > maxAlone {
-				maxAlone = sz
+		if s.Sizer == "bytes" {
+			for _, sz := range sig.StandaloneSizes(v) {
+				if sz > maxAlone {
+					maxAlone = sz
+				}
 			}
-		}
-		if s.Signal == sig.Profiles {
-			if m := sig.MaxSamplesPerProfile(v.(pprofile.Profiles)); m > maxAlone && s.Sizer == "items" {
+		} else if s.Signal == sig.Profiles {
+			// items sizer: a profile is indivisible, its size is its number of samples
+			if m := sig.MaxSamplesPerProfile(v.(pprofile.Profiles)); m > maxAlone {
 				maxAlone = m
 			}
 		}
